@@ -320,6 +320,7 @@ func verifUDPReplies(nReplies int) {
 	if nReplies >= 2 && len(client.writes) >= 2 {
 		ss := key.SaltSize()
 		// fresh salt per packet: the two salts are independent draws (they can differ in every byte)
+		verifAssert("C03.reply.fresh-salt-per-packet", verifFreshBytes(client.writes[0].data[:ss], client.writes[1].data[:ss]))
 		verifReach("C03.reply.salts-differ", client.writes[0].data[0] != client.writes[1].data[0])
 		verifReach("C03.reply.salts-differ-last", client.writes[0].data[ss-1] != client.writes[1].data[ss-1])
 	}
@@ -428,4 +429,31 @@ func VH_C04_reply_isolation() {
 	verifQuiesce()
 	verifAssert("C04.isolation.reclaimed", t1.Closed() == 1 && t2.Closed() == 1 && verifBlockedIn("timedCopy") == 0)
 	verifReach("C04.isolation.done", true)
+}
+
+// C14: when the packet listener is shut down, Handle returns and every live association is
+// expired promptly (its outbound socket closed, its removal reported)
+func VH_C14_shutdown_through_handle() {
+	verifResetNet()
+	verifTargetBlocking = true
+	verifChanTargets = nil
+	defer func() { verifTargetBlocking = false }()
+	cl, specs, _ := verifMakeList(1, 1, false)
+	key := verifKey(specs[0].cipher, verifSecrets[specs[0].secret])
+	um := &verifUDPMetrics{}
+	h := NewPacketHandler(defaultNatTimeout, cl, um, nil)
+	client := &verifPacketConn{name: "client"}
+	n := 1 + verifChoice("clients", 2)
+	for i := 0; i < n; i++ {
+		client.reads = append(client.reads, verifRead{data: verifPack(key, verifSocksV4([]byte{93, 184, 216, 34}, 443, []byte("x"))), addr: verifClientAddrs[i]})
+	}
+	h.Handle(client) // the client socket reports closed after the scripted datagrams
+	verifQuiesce()
+	verifAssert("C14.shutdown-handle.associations", len(verifChanTargets) == n && len(um.entries) == n)
+	for i := 0; i < len(verifChanTargets) && i < len(um.entries); i++ {
+		verifAssert("C14.shutdown-handle.socket-closed", verifChanTargets[i].Closed() == 1)
+		verifAssert("C14.shutdown-handle.removed-once", um.entries[i].removed == 1)
+	}
+	verifAssert("C14.shutdown-handle.no-goroutine-left", verifBlockedIn("timedCopy") == 0)
+	verifReach("C14.shutdown-handle.done", true)
 }
